@@ -332,6 +332,10 @@ func (E *Engine) indexAddr(st *State, x *ssa.IndexAddr) *Val {
 		E.nilCheck(st, x, base, "array pointer")
 		E.boundsCheck(st, x, idx.S, intLit(arr.Len()), "index in range of array")
 		lv := E.ptrLV(base)
+		if arr.Len() > 16 {
+			// large inline array: its elements are objects of their own, derived from the holder
+			return &Val{T: x.Type(), S: E.arrayElemRef(lv, idx.S), Sort: SInt}
+		}
 		n := &LVal{Kind: lv.Kind, Cell: lv.Cell, Ref: lv.Ref, Idx: lv.Idx, Root: lv.Root, Global: lv.Global}
 		step := pathStep{IsArr: true}
 		if c, ok := isConstTerm(idx.S); ok {
